@@ -915,6 +915,7 @@ def enumerate_cases(run):
 def check(run):
     from props import C18_kernel
     guarded(run, C18_kernel.prove)
+    guarded(run, C18_kernel.prove_eigh)
     cases = enumerate_cases(run)
     batch = len(cases) if run.tier == "quick" else 3000
     order = np.random.default_rng(run.seed).permutation(len(cases))     # balance long and short cases over the pool
